@@ -19,12 +19,17 @@ func Chunk[T any](s []T, chunkSize int) [][]T {
 	if chunkSize <= 0 {
 		panic("non-positive chunkSize for Chunk")
 	}
-	out := make([][]T, (len(s)+chunkSize-1)/chunkSize)
+	// Careful to avoid overflow for very large chunkSize.
+	n := len(s) / chunkSize
+	if len(s)%chunkSize != 0 {
+		n++
+	}
+	out := make([][]T, n)
 	for i := range out {
 		start := i * chunkSize
-		end := (i + 1) * chunkSize
-		if end > len(s) {
-			end = len(s)
+		end := len(s)
+		if chunkSize < end-start {
+			end = start + chunkSize
 		}
 		out[i] = s[start:end]
 	}
